@@ -87,6 +87,14 @@ fn variant_marshal(enum_name: syn::Ident, variant: &syn::Variant) -> TokenStream
                         return Err(::rustbus::signature::Error::SignatureTooLong.into());
                     }
                     ctx.buf[pos] = sig_len as u8;
+                    // the signature of a Rust type can still be one the protocol forbids (e.g. nested too deeply)
+                    let valid = ::std::str::from_utf8(&ctx.buf[pos + 1..pos + 1 + sig_len])
+                        .map(|sig| ::rustbus::params::validate_signature(sig).is_ok())
+                        .unwrap_or(false);
+                    if !valid {
+                        ctx.buf.truncate(pos);
+                        return Err(::rustbus::signature::Error::NestingTooDeep.into());
+                    }
 
                     // actual marshal code
                     // align to 8 because we treat this as a struct
@@ -130,6 +138,14 @@ fn variant_marshal(enum_name: syn::Ident, variant: &syn::Variant) -> TokenStream
                         return Err(::rustbus::signature::Error::SignatureTooLong.into());
                     }
                     ctx.buf[pos] = sig_len as u8;
+                    // the signature of a Rust type can still be one the protocol forbids (e.g. nested too deeply)
+                    let valid = ::std::str::from_utf8(&ctx.buf[pos + 1..pos + 1 + sig_len])
+                        .map(|sig| ::rustbus::params::validate_signature(sig).is_ok())
+                        .unwrap_or(false);
+                    if !valid {
+                        ctx.buf.truncate(pos);
+                        return Err(::rustbus::signature::Error::NestingTooDeep.into());
+                    }
 
                     // align to 8 because we treat this as a struct
                     ctx.align_to(8);
@@ -152,6 +168,8 @@ fn variant_marshal(enum_name: syn::Ident, variant: &syn::Variant) -> TokenStream
                         // a variant's signature is limited to 255 bytes, the length byte can not say more
                         return Err(::rustbus::signature::Error::SignatureTooLong.into());
                     }
+                    // the signature of a Rust type can still be one the protocol forbids (e.g. nested too deeply)
+                    ::rustbus::params::validate_signature(sig_str.as_ref())?;
                     ::rustbus::wire::util::write_signature(sig_str.as_ref(), &mut ctx.buf);
 
                     val.marshal(ctx)?;
